@@ -398,7 +398,13 @@ def generate_section(section, repo_root, em, res):
                 pre_b[i1].extend(run)
                 for p in idx:
                     deleted[p] = True
+            old_t = [e_toks[p].text for p in idx]
+            new_t = [t.text for t in R[j1:j2]]
+            loops = lambda ts: sum(1 for x in ts if x in ('for', 'while', 'loop'))
+            fns = lambda ts: {ts[q + 1] for q in range(len(ts) - 1) if ts[q] == 'fn'}
             res.edits.append({'item': owner_early.get(i1) or owner_early.get(i1 - 1) or owner_early.get(i2),
+                              # structural edits: a loop appears or disappears (a new loop has no invariant), a function is added
+                              'loops_changed': loops(old_t) != loops(new_t), 'fns_added': sorted(fns(new_t) - fns(old_t)),
                               'repo_line': R[j1].line if j1 < len(R) else (R[-1].line if R else 0),
                               'was': tokens_text([e_toks[p] for p in idx])[:200], 'now': tokens_text(R[j1:j2])[:200]})
     dropped_hints |= dropped_nodes
